@@ -30,7 +30,7 @@ func Generate(genseed uint64, stream string, thorough bool) *Case {
 		o.MaxNodes = 12 + r.Intn(13)
 	}
 	switch stream {
-	case "contention":
+	case "contention", "extended":
 		o.MinNodes, o.MaxNodes = 10, 20
 	case "twin":
 		o.Twins = true
@@ -131,10 +131,71 @@ func Generate(genseed uint64, stream string, thorough bool) *Case {
 		}
 		if k := g.Nodes[rootNow].Kind; (k == dag.KIndex || k == dag.KDockerL) && r.Chance(1, 3) {
 			c.Platform = common.Pick(r, arches)
+			if r.Chance(1, 5) {
+				c.PlatVar = "v8" // no generated entry has a variant: nothing matches
+			} else if r.Chance(1, 6) {
+				c.PlatFeat = "sse4"
+			}
 		}
 	}
 
+	// which callbacks are set: all, none (= default options) or a random subset
+	switch r.Intn(10) {
+	case 0, 1, 2:
+		c.CbSet = "11111"
+	case 3, 4, 5:
+		c.CbSet = "00000"
+	default:
+		bits := []byte("00000")
+		for i := range bits {
+			if r.Bool() {
+				bits[i] = '1'
+			}
+		}
+		c.CbSet = string(bits)
+	}
+	c.FindSucc = r.Chance(1, 3)
+
 	switch stream {
+	case "extended":
+		// ExtendedCopyGraph / ExtendedCopy from a graph source (memory, OCI layout), callbacks nil or
+		// set.  The node is one with several roots above it (e.g. a subject with referrers, a shared
+		// blob): the roots are copied concurrently and share ONE limiter, so the in-flight bound is
+		// Concurrency for the whole call; small K and slow storage make a violation visible.
+		c.Mode = common.Pick(r, []string{"x", "X"})
+		c.Src = common.Pick(r, []string{"mem", "mem", "oci", "ocire"})
+		c.Dst = common.Pick(r, []string{"mem", "mem", "oci", "file"})
+		c.RefFetch, c.MapRoot, c.Platform, c.Mount = false, -1, "", false
+		c.K = common.Pick(r, []int{1, 2, 2, 3, 0})
+		c.Slow = r.Chance(2, 3)
+		best, bestRoots := c.Root, -1
+		for _, i := range nonforeign {
+			k := 0
+			for _, rt := range g.Roots() {
+				if g.Reach(rt)[i] {
+					k++
+				}
+			}
+			if k > bestRoots || (k == bestRoots && r.Chance(1, 3)) {
+				best, bestRoots = i, k
+			}
+		}
+		if r.Chance(4, 5) {
+			c.Root = best
+		}
+		set = g.RandomClosedSubset(r, common.Pick(r, []int{0, 0, 10}))
+	case "rootpresent":
+		// Copy whose root is already in the destination: {Tagger, ReferencePusher} x {OnCopySkipped nil, set}
+		c.Mode = common.Pick(r, []string{"t", "r"})
+		for k := range g.Reach(c.Root) {
+			set[k] = true
+		}
+		if c.MapRoot >= 0 {
+			for k := range g.Reach(c.MapRoot) {
+				set[k] = true
+			}
+		}
+		c.Platform = ""
 	case "twin":
 		// the twin (same bytes as a manifest, as application/octet-stream) is pre-populated,
 		// the manifest itself is reachable from the root
@@ -156,10 +217,11 @@ func Generate(genseed uint64, stream string, thorough bool) *Case {
 		c.MapRoot, c.Platform = -1, ""
 		set = g.RandomClosedSubset(r, common.Pick(r, []int{0, 0, 10}))
 		set[t] = true
-		for _, tw := range twins { // a pre-populated manifest brings its twin along (same key) and vice versa
-			if set[g.Nodes[tw].TwinOf] {
-				set[tw] = true
-			}
+		// every twin blob of the graph is pre-populated (they are leaves, the set stays link-closed):
+		// a twin that is only reachable would be pushed during the copy and trigger the same defect
+		// by a race (manifest probed after its twin blob was pushed), outside the signature's mechanism
+		for _, tw := range twins {
+			set[tw] = true
 		}
 		c.Dst = common.Pick(r, []string{"mem", "oci", "oci", "ocire", "remote"})
 	case "mount":
@@ -254,6 +316,16 @@ func Generate(genseed uint64, stream string, thorough bool) *Case {
 		} else {
 			c.FailCb = common.Pick(r, []string{"pre", "post"})
 		}
+	}
+	if c.FailCb != "" && !c.CbIsSet(c.FailCb) { // an injected failure needs its callback
+		bits := []byte(c.cbBits())
+		bits[map[string]int{"pre": 0, "post": 1, "skip": 2, "mounted": 3, "mountfrom": 4}[c.FailCb]] = '1'
+		c.CbSet = string(bits)
+	}
+	if c.Mount && !c.CbIsSet("mountfrom") && r.Chance(3, 4) { // a Mounter is pointless without MountFrom: mostly set it
+		bits := []byte(c.cbBits())
+		bits[4] = '1'
+		c.CbSet = string(bits)
 	}
 	for k := range set {
 		c.D0 = append(c.D0, k)
